@@ -153,21 +153,38 @@ def validate(traces, cfg):
     return res, ver, why
 
 
-def mutate_controls(good):
-    """planted discrepancies in an accepted trace with the class the trace spec must report"""
-    ctl = []
-    frees = [i for i, e in enumerate(good) if e["op"] == "free"]
-    if frees:
-        i = frees[0]
-        ctl.append(("a free event recorded twice is a double free", good[:i + 1] + [good[i]] + good[i + 1:], "double-free"))
-        j = frees[-1]
-        ctl.append(("a dropped free event is a leak", good[:j] + good[j + 1:], None))
-    allocs = [i for i, e in enumerate(good) if e["op"] == "alloc"]
-    if allocs:
-        i = allocs[0]
-        bogus = dict(good[i]); bogus["op"] = "free"; bogus["p"] = 99999
-        ctl.append(("a free of a block never handed out is flagged", good[:i] + [bogus] + good[i:], "free-of-unknown-block"))
-    return ctl
+def _e(op, api="", p=0, o=0, res="", tg=(), owns=(), dead=()):
+    return {"op": op, "api": api, "p": p, "o": o, "res": res, "tg": list(tg),
+            "owns": [{"o": x, "b": list(b)} for x, b in owns], "dead": list(dead)}
+
+
+# a disciplined behaviour written by hand (independent of the implementation): create, use, copy in place, delete
+GOOD_TRACE = [
+    _e("call", "make"), _e("alloc", p=1), _e("alloc", p=2), _e("alloc", p=3), _e("free", p=3),
+    _e("ret", res="obj", o=1, owns=[(1, (1, 2))]),
+    _e("call", "step"), _e("alloc", p=4), _e("warn"), _e("free", p=4), _e("ret", res="void"),
+    _e("call", "rebuild", tg=(1,)), _e("free", p=2), _e("alloc", p=5), _e("ret", res="void", owns=[(1, (1, 5))]),
+    _e("call", "make"), _e("alloc", p=6), _e("allocfail"), _e("free", p=6), _e("error"), _e("ret", res="err"),
+    _e("call", "delete", tg=(1,)), _e("free", p=5), _e("free", p=1), _e("ret", res="void", dead=(1,)),
+    _e("end"),
+]
+
+
+def mutate_controls():
+    """planted discrepancies in the hand-written disciplined trace with the class the trace spec must report"""
+    g = GOOD_TRACE
+    drop = lambda i: g[:i] + g[i + 1:]
+    return [
+        ("the hand-written disciplined trace is accepted", g, "accepted"),
+        ("a free event recorded twice is a double free", g[:5] + [g[4]] + g[5:], "double-free"),
+        ("a dropped free of a temporary is a leak without failed allocation", drop(9), "leak-without-failed-allocation"),
+        ("a dropped free before an error is a leak after failed allocation", drop(18), "leak-after-failed-allocation"),
+        ("a dropped free in delete leaves blocks behind", drop(23), "destroy-leaves-blocks"),
+        ("a free of a block never handed out is flagged", g[:1] + [_e("free", p=99999)] + g[1:], "free-of-unknown-block"),
+        ("a call freeing another object's block is flagged", g[:7] + [_e("free", p=1)] + g[7:], "free-of-foreign-block"),
+        ("a failed allocation that is not surfaced is flagged", drop(19)[:19] + [_e("ret", res="void")] + drop(19)[20:],
+         "failure-not-surfaced"),
+    ]
 
 
 def run(ctx):
@@ -240,8 +257,7 @@ def run(ctx):
         # 4. TLC validates the recorded traces
         tix = [i for i, r in enumerate(results) if r[0] == "trace"]
         traces = [results[i][2] for i in tix]
-        good0 = results[0][2]
-        controls = mutate_controls(good0)
+        controls = mutate_controls()
         batch = traces + [c[1] for c in controls]
         res, ver, why = validate(batch, "AllocLifecycleTrace_Strict.cfg")
         ctx.tlc_ok(res, "AllocLifecycleTrace_Strict")
@@ -250,8 +266,7 @@ def run(ctx):
         for ci, (name, _t, cls) in enumerate(controls):
             t = len(traces) + ci + 1
             reached, ln = ver[t]
-            ctx.control(name, reached < ln and (cls is None or why.get(t, ("", ""))[0] == cls))
-        ctx.control("the untouched fault-free trace is accepted", ver[1][0] == ver[1][1])
+            ctx.control(name, (reached == ln) if cls == "accepted" else (reached < ln and why.get(t, ("", ""))[0] == cls))
         second = []          # traces with the known structural leak: validated again in the tolerant reading
         nfaulted = 0
         for j, i in enumerate(tix):
@@ -268,9 +283,11 @@ def run(ctx):
             cls, api = why.get(j + 1, ("unexplained-event", api_at(ev, reached)))
             sig = "%s:%s" % (cls, api)
             bad_ev = ev[reached] if reached < len(ev) else None
-            what = ("%s: scenario %s on model %s (%s build) with allocation attempt(s) %s failing: trace rejected at "
-                    "event %d/%d %s during %s" % (cls, sc, m, v, list(fl), reached + 1, ln,
-                                                  json.dumps(bad_ev), api))
+            what = ("%s (attributed to %s): scenario %s on model %s (%s build) with allocation attempt(s) %s failing: "
+                    "trace rejected at event %d/%d, a %s of %s"
+                    % (cls, api, sc, m, v, list(fl), reached + 1, ln,
+                       (bad_ev or {}).get("op", "?") + ("(" + bad_ev["res"] + ")" if bad_ev and bad_ev["res"] else ""),
+                       api_at(ev, reached)))
             ctx.violation(sig, what, dict(key, expect=cls, api=api))
             if cls == "leak-after-failed-allocation":
                 second.append((i, j))
